@@ -35,7 +35,7 @@ SPEC = {
     "gens": [],
     "props": ["props/C46.v"],
     "corr": ["corr/CpuPick_corr.v"],
-    "comps": [{"comp": "cpupick", "n_quick": 800, "n_thorough": 20000}],
+    "comps": [{"comp": "cpupick", "n_quick": 800, "n_thorough": 8000}],
     "trusted": ["model/CpuPick.v is a hand-written mirror of cpupick.go / perf_linux.go / topo_linux.go (tied by the correspondence)",
                 "the cpulist grammar in model/CpuPick.v (inductive `cpulist`) is the reading of 'the kernel's cpulist syntax' fixed in "
                 "DESIGN.md C46 and fixes/F13, F14, F17: the kernel's output form, ASCII blanks trimmed, empty items skipped, leading zeros allowed"],
